@@ -260,18 +260,23 @@ CLAIMS = {
         technique="Coq proof (induction over block lists on top of the association model) + scripted-session correspondence",
         design="4/C19"),
     "C18": dict(
-        text="Coq theorems (axiom-free) about the model of SerialHdlcTransport: a request that fits the maximum "
-             "information size is written as one unsegmented information frame carrying LLC||APDU with the link's "
-             "current numbers; for EVERY segmentation of the meter's answer (induction over the segment list) the "
-             "collection loop returns the concatenation of the payloads in order, stops exactly at the unsegmented "
-             "final frame, sends one receive-ready frame per segmented frame that hands over the turn, and send() returns "
-             "the answer without the LLC response header. The byte level below (frames out of an arbitrarily chunked "
-             "stream, counters modulo 8) is C10/C11. Whole sessions (connect, up to 12 exchanges with wrapping numbers, "
-             "disconnect, answers to 5000 bytes in 1..40 segments, read granularity down to single bytes) run as the same "
-             "script on the model and on the real transport over a scripted serial port.",
-        note="Partial: the end-to-end statement over the serial script is checked by correspondence, the proved part is the "
-             "loop logic over delivered frames. Known finding F18 (requests longer than one information field).",
-        technique="Coq proof (induction over segmentations) + scripted-session correspondence on the real transport",
+        text="Coq theorems (axiom-free) about the model of SerialHdlcTransport over a scripted serial port. End to end "
+             "(C18_send_end_to_end): the transport idle, the meter's answer ANY list of information frames the link accepts "
+             "at their points (all but the last segmented), each made readable only after the client's previous write, the "
+             "serial line handing bytes over in pieces of ANY positive sizes (read_until semantics, induction over the "
+             "transport's read-and-poll loop with an explicit termination measure): send() writes exactly the request frame "
+             "(LLC||APDU, unsegmented, numbered from the link) and one receive-ready frame per segment carrying the link's "
+             "receive number after that segment (= N(S)+1 mod 8, C18_rr_number, wrap included), returns exactly the "
+             "concatenated payloads without the LLC response header and leaves the link idle with nothing buffered or "
+             "unread. C18_connect / C18_disconnect: SNRM/UA leaves the link connected, DISC/UA disconnected, for every read "
+             "granularity. The client's frames always encode (short_encodes, info_encodes). Also kept: the loop-level "
+             "theorems over delivered frames. Whole sessions (connect, up to 12 exchanges with wrapping numbers, disconnect, "
+             "answers to 5000 bytes in 1..40 segments, read granularity down to single bytes) run as the same script on the "
+             "model and on the real transport.",
+        note="Requests longer than one information field are outside the theorem and do not work in the library (known "
+             "finding F18). pyserial is a scripted stand-in (read_until returns at most up to the next flag byte and at "
+             "least one byte while data is readable).",
+        technique="Coq proof (induction over segments, over the read-and-poll loop and over read schedules) + scripted-session correspondence on the real transport",
         design="4/C18"),
     "C15": dict(
         text="Coq theorems (axiom-free) for buffers of any number of rows and columns, any null pattern, clock columns "
